@@ -2,7 +2,7 @@ CONSTANTS
  Confs <- MCConfs
  FixWaitErr = TRUE
  Reduce = FALSE
- MCShapes = {"img", "dup", "idx2", "dtag", "art"}
+ MCShapes = {"img", "dup", "idx2", "dtag", "art", "diamond2"}
  MCPairs = {"tworeg", "samereg", "reg2dir", "dir2reg"}
  MCOpts <- MCOptsCore
  MCFeats <- MCFeatsMount
